@@ -79,8 +79,8 @@ def raw_sheets(spec: dict) -> dict:
     for tr in spec.get("transitions", []):
         names = list(tr["comps"])
         rows = list(tr.get("rows") or names)
-        for n in names:  # compartments appended by a mutation get a row as well
-            if n not in rows and "rows" in tr and n not in (tr.get("rows") or []):
+        for n in names:  # compartments appended by a mutation get a row as well (unless the mutation wants a column only)
+            if n not in rows and "rows" in tr and n not in (tr.get("rows") or []) and n not in (tr.get("cols_only") or []):
                 rows.append(n)
         m = [[tr.get("poptype")] + names] + [[n] + [None] * len(names) for n in rows]
         for (a, c, s) in tr["cells"]:
